@@ -58,8 +58,10 @@ def _case(draw, tier):
         else:
             reopen[k] = draw(st.sampled_from(NSS + [NSS[0] + "/", NSS[0].upper(), NSS[0] + "\n", " " + NSS[0], NSS[0] + " ",
                                                     create[k] + "\n", create[k] + "\t"]))
-    enc_c = {k: draw(st.sampled_from(["int", "str"])) for k in KEYS[:2]}
-    enc_r = {k: draw(st.sampled_from(["int", "str"])) for k in KEYS[:2]}
+    # integers may be given as integer-like strings - also "03", " 3 ", "+3" (what int() takes)
+    encs = ["int", "int", "str", "str", "str0", "strsp", "strplus"]
+    enc_c = {k: draw(st.sampled_from(encs)) for k in KEYS[:2]}
+    enc_r = {k: draw(st.sampled_from(encs)) for k in KEYS[:2]}
     return {"create": create, "reopen": reopen, "enc_c": enc_c, "enc_r": enc_r,
             "keyset": draw(st.sampled_from(["exact"] * 6 + ["missing", "none", "extra"])),
             "keyset_key": draw(st.sampled_from(KEYS)),
@@ -175,7 +177,12 @@ def _race_case(case, ctx):
 def _props(root, vals, enc):
     p = {"store_path": root}
     for k, v in vals.items():
-        p[k] = str(v) if enc.get(k) == "str" else v
+        e = enc.get(k)
+        if isinstance(v, int) and e in ("str", "str0", "strsp", "strplus"):
+            v = {"str": f"{v}", "str0": f"0{v}", "strsp": f" {v} ", "strplus": f"+{v}"}[e]
+        elif e == "str":
+            v = str(v)
+        p[k] = v
     return p
 
 
